@@ -30,7 +30,7 @@ def _run_case(case):
         nsteps = case.get("nsteps", 1)
         svd = svd_params(case.get("trunc"))
         ob, algo = S.record_run("tdvp2s", sysd, nsteps, check_heff=False, mode=mode_of(case.get("mode", "expm")), svd=svd,
-                                after_step=measure)
+                                after_step=measure, **S.hist_kwargs(case))
         ob["hscale"] = float(np.max(np.abs(sysd["H"])))
         ob["initial_shapes"] = None
         # --- C07W hook: private run of the same class for the store-level tie (structure after constructor / steps) ---
@@ -41,7 +41,7 @@ def _run_case(case):
         if "exception" not in ob and case["sub"] == "twonode":
             devs = []
             for k, m in enumerate(ob["measure"]):
-                ref = expm_herm(sysd["H"], k * sysd["dt"]) @ psi0
+                ref = expm_herm(sysd["H"], m.get("t", k) * sysd["dt"]) @ psi0      # dt = the REQUESTED time step
                 devs.append(float(np.max(np.abs(m["vec"] - ref))) / max(1.0, float(np.max(np.abs(psi0)))))
             ob["exact_dev"] = devs
         return strip_vecs(ob)
@@ -59,7 +59,11 @@ class C07(Prop):
             "states with shuffled legs and bond dimensions 1..3; Hermitian random Hamiltonians; sub-kinds: run (truncation disabled: structure, "
             "canonical form at the recorded centre, norm/energy conservation, 1..3 steps), twonode (any initial bond 1..4 and physical dimensions "
             "2..3 against exp(-iH k dt) by eigendecomposition), trunc (max bond 1..4, relative/absolute tolerances incl. 0 and large, sum mode, "
-            "renorm: every bond within [1, max]). non-trivial = >= 2 nodes; distinct by content")
+            "renorm: every bond within [1, max]). Configurations: every fifth case with a final time the time step does not divide. Histories "
+            "on one object, truncation disabled (trees 4..9 nodes, two thirds with every bond >= 2): steps / reset_to_initial_state() / "
+            "steps; evaluate_operators() between steps and the public run() with single-site observables on leaves (one furthest from the "
+            "sweep start) and a two-site product: structure, canonical form at the recorded centre, norm and energy after every action "
+            "(recording and resetting are not schedule events: part of the tie). non-trivial = >= 2 nodes; distinct by content")
     clauses = [
         ("F", "trace2s is defined on every tree with unique ids and >= 2 nodes; the signed durations of a step sum to dt (C07_two_site_runs, C07_total_duration)"),
         ("F", "two nodes (any identifiers): the step consists of exactly two half-step two-site updates on the only edge and no backward site update "
@@ -141,6 +145,18 @@ class C07(Prop):
                   "total_tol": rng.choice([0.0, 1e-15, 1e-2, 1.0, 1e3, float("-inf")]), "sum_trunc": rep % 3 == 0, "renorm": rep % 4 == 0}
             cases.append({"par": par, "kind": "tdvp2s", "sub": "trunc", "seed": rng.randrange(10 ** 9), "herm": True, "coeffs": False,
                           "ttno_shuffle": rep % 2 == 0, "mode": "expm", "nsteps": rng.choice([1, 2]), "nterms": rng.choice([1, 2, 3]), "trunc": tr})
+        # CONFIGURATIONS: a final time that the time step does not divide (two-node exactness uses the requested time step)
+        for j, c in enumerate(cases):
+            if j % 5 == 3:
+                c["tratio"] = rng.choice(S.TRATIOS)
+        # HISTORIES ("several consecutive steps" of ONE object as it is used): run / reset_to_initial_state() / run, and
+        # observables recorded between the steps (evaluate_operators() by hand, the public run()): truncation disabled,
+        # structure, canonical form, norm and energy after every action; trees up to 9 nodes, mostly entangled states (bonds >= 2)
+
+        def base(rng, j, par):
+            return {"sub": "run", "herm": True, "coeffs": j % 4 == 0, "ttno_shuffle": j % 2 == 0,
+                    "mode": "default" if j % 5 == 0 else "expm", "nterms": rng.choice([1, 2, 3])}
+        cases += S.gen_history_cases(rng, ctx.scale(24, 480) * budget_scale, ["tdvp2s"], base)
         return cases
 
     def nontrivial(self, case):
@@ -151,6 +167,9 @@ class C07(Prop):
         for x in cases:
             c[f"nodes={len(x['par'])}"] += 1
             c[x["sub"]] += 1
+            c["history=" + x.get("hist", "steps")] += 1
+            if x.get("tratio") is not None and x["tratio"] != int(x["tratio"]):
+                c["final-time-not-multiple-of-dt"] += 1
             if x.get("trunc"):
                 c[f"max_bond={x['trunc']['max_bond']}"] += 1
                 c["sum_trunc" if x["trunc"]["sum_trunc"] else "value_trunc"] += 1
